@@ -50,15 +50,148 @@ func isSuccessReturn(m *model.Model, ret *ssa.Return) bool {
 			if _, ok := r.(*ssa.Call); ok {
 				return false // return fmt.Errorf(...) / errors.New(...)
 			}
+			// the very error value returned was found non-nil on the way (if err != nil { return })
+			if errKnownNonNil(m, r, ret.Block()) {
+				return false
+			}
 		}
 	}
 	return true
 }
 
+// errKnownNonNil: the error value v returned from block b is a freshly made error (the result of
+// a call, a concrete value put into the interface), or b is dominated by the edge of a test of v
+// (or of another load of the variable v was loaded from) against nil on which it is not nil.
+func errKnownNonNil(m *model.Model, v ssa.Value, b *ssa.BasicBlock) bool {
+	switch v.(type) {
+	case *ssa.Call, *ssa.MakeInterface:
+		return true
+	}
+	fn := b.Parent()
+	same := func(a ssa.Value) bool {
+		if a == v {
+			return true
+		}
+		la, ok1 := a.(*ssa.UnOp)
+		lv, ok2 := v.(*ssa.UnOp)
+		return ok1 && ok2 && la.Op == token.MUL && lv.Op == token.MUL && la.X == lv.X
+	}
+	for _, gb := range fn.Blocks {
+		if len(gb.Instrs) == 0 {
+			continue
+		}
+		ifi, ok := gb.Instrs[len(gb.Instrs)-1].(*ssa.If)
+		if !ok {
+			continue
+		}
+		bo, ok := ifi.Cond.(*ssa.BinOp)
+		if !ok || (bo.Op != token.NEQ && bo.Op != token.EQL) {
+			continue
+		}
+		isNil := func(x ssa.Value) bool { c, ok := x.(*ssa.Const); return ok && c.IsNil() }
+		if !((same(bo.X) && isNil(bo.Y)) || (same(bo.Y) && isNil(bo.X))) {
+			continue
+		}
+		nonNil := 0
+		if bo.Op == token.EQL {
+			nonNil = 1
+		}
+		if gb.Succs[nonNil] == b && len(m.LivePreds(b)) == 1 || m.EdgeDominates(gb, nonNil, b) {
+			return true
+		}
+	}
+	return false
+}
+
 // ---------------------------------------------------------------- NORM
+
+// runNormThreshold: "the mantissa is normalised" is "its top word is at least base/10". A
+// comparison of a top word m[len(m)-1] with a constant next to base/10 must say exactly that (or
+// its negation): >= base/10, > base/10-1, < base/10, <= base/10-1. `>= base/10 - 1` lets the
+// word 0999…9 pass as normalised.
+func runNormThreshold(m *model.Model, s *ob.Set) {
+	const R = "NORM"
+	tenth := constant.BinaryOp(m.PkgConst("_DB"), token.QUO_ASSIGN, constant.MakeInt64(10))
+	n, bad := 0, ""
+	pos := ""
+	for _, fn := range m.Funcs {
+		if !m.InDecimalPkg(fn) || len(fn.Blocks) == 0 || fn.Synthetic != "" {
+			continue
+		}
+		live := m.Live(fn)
+		for _, b := range fn.Blocks {
+			if !live[b.Index] {
+				continue
+			}
+			for _, in := range b.Instrs {
+				bo, ok := in.(*ssa.BinOp)
+				if !ok {
+					continue
+				}
+				op := bo.Op
+				x, y := bo.X, bo.Y
+				if _, isC := x.(*ssa.Const); isC {
+					mo, okm := mirrorOpTok[op]
+					if !okm {
+						continue
+					}
+					x, y, op = y, x, mo
+				}
+				kc, ok := y.(*ssa.Const)
+				if !ok || kc.Value == nil || kc.Value.Kind() != constant.Int {
+					continue
+				}
+				d := constant.BinaryOp(kc.Value, token.SUB, tenth)
+				dv, exact := constant.Int64Val(d)
+				if !exact || dv < -1 || dv > 1 {
+					continue
+				}
+				// the top word of a Word slice
+				ld, ok := stripConv(x).(*ssa.UnOp)
+				if !ok || ld.Op != token.MUL {
+					continue
+				}
+				ia, ok := ld.X.(*ssa.IndexAddr)
+				if !ok || !m.IsWordSlice(ia.X.Type()) {
+					continue
+				}
+				sub, ok := ia.Index.(*ssa.BinOp)
+				if !ok || sub.Op != token.SUB {
+					continue
+				}
+				if one, ok := model.ConstInt(sub.Y); !ok || one != 1 {
+					continue
+				}
+				if lc, ok := stripConv(sub.X).(*ssa.Call); !ok || model.BuiltinName(&lc.Call) != "len" {
+					continue
+				}
+				n++
+				if pos == "" {
+					pos = m.InstrPos(bo)
+				}
+				good := false
+				switch {
+				case (op == token.GEQ || op == token.LSS) && dv == 0:
+					good = true
+				case (op == token.GTR || op == token.LEQ) && dv == -1:
+					good = true
+				case op == token.EQL || op == token.NEQ:
+					good = true
+				}
+				if !good {
+					bad = fmt.Sprintf("%s (in %s): the top word is compared %s %s; a normalised mantissa has a top word >= base/10 = %s, and this test puts the boundary one word off", m.InstrPos(bo), m.FuncName(fn), op, kc.Value.ExactString(), tenth.ExactString())
+				}
+			}
+		}
+	}
+	if n > 0 {
+		s.Check(bad == "", R, "top-word-threshold", pos, fmt.Sprintf("%d comparison(s) of a top word with the normalisation threshold, all at base/10", n), bad)
+	}
+}
 
 func runNorm(m *model.Model, s *ob.Set) {
 	const R = "NORM"
+	runNormThreshold(m, s)
 	reach := reachesRound(m)
 	dnorm := m.Lookup("dnorm")
 	finite, _ := constant.Int64Val(m.PkgConst("finite"))
@@ -114,9 +247,23 @@ func runNorm(m *model.Model, s *ob.Set) {
 				isComputed[st] = true
 			}
 			isStoredMant := func(v ssa.Value) bool {
+				v = stripConvAny(v)
 				for _, st := range stores {
-					if stripConvAny(st.Val) == stripConvAny(v) {
+					sv := stripConvAny(st.Val)
+					if sv == v {
 						return true
+					}
+					// joined from several ways that all carry this very slice
+					if ph, ok := sv.(*ssa.Phi); ok {
+						all := len(ph.Edges) > 0
+						for _, e := range ph.Edges {
+							if stripConvAny(e) != v {
+								all = false
+							}
+						}
+						if all {
+							return true
+						}
 					}
 				}
 				return false
@@ -124,6 +271,11 @@ func runNorm(m *model.Model, s *ob.Set) {
 			n := len(fn.Blocks)
 			in := make([]int, n)
 			in[0] = clean
+			// pre: the slice that is stored into the mantissa later on was normalised beforehand on
+			// every way here (dnorm applied to it, or found empty: nothing to shift). 1 yes, 2 no.
+			pre := make([]int, n)
+			pre[0] = 2
+			curPre := 2
 			work := []int{0}
 			var bad []string
 			step := func(b *ssa.BasicBlock, st int, rec bool) int {
@@ -132,6 +284,9 @@ func runNorm(m *model.Model, s *ob.Set) {
 					case *ssa.Store:
 						if isComputed[x] {
 							st = pend0
+							if curPre == 1 {
+								st = pend1
+							}
 							continue
 						}
 						if fa, ok := m.DecField(x.Addr); ok && fa.Field == m.F.Form && m.RefOf(fa.X).MayBeParam(k) {
@@ -142,6 +297,27 @@ func runNorm(m *model.Model, s *ob.Set) {
 					case ssa.CallInstruction:
 						cal, c := model.Callee(x)
 						if cal == nil {
+							// a call through a local function value (scale := z.Mul; ... scale(z, y)):
+							// rounded if every function it may stand for rounds this Decimal
+							if ts := model.DynTargets(c); ts != nil && st == pend1 {
+								all := true
+								for _, t := range ts {
+									hit := false
+									for ai, a := range t.Args {
+										if reach[t.Fn] != nil && m.IsDecPtr(a.Type()) && reach[t.Fn][ai] && m.RefOf(a).MayBeParam(k) {
+											hit = true
+										}
+									}
+									all = all && hit
+								}
+								if all {
+									st = clean
+								}
+							}
+							continue
+						}
+						if cal == dnorm && st != pend0 && len(stores) == 1 && isStoredMant(c.Args[0]) {
+							curPre = 1
 							continue
 						}
 						if cal == dnorm && st == pend0 {
@@ -182,9 +358,19 @@ func runNorm(m *model.Model, s *ob.Set) {
 				if !live[bi] {
 					continue
 				}
+				curPre = pre[bi]
 				out := step(fn.Blocks[bi], in[bi], false)
+				outPre := curPre
 				for _, ed := range model.LiveSuccs(fn.Blocks[bi]) {
 					o := out
+					op := outPre
+					if len(stores) == 1 && emptyOnEdge(fn.Blocks[bi], ed.Si, isStoredMant) {
+						op = 1
+					}
+					if op > pre[ed.To.Index] {
+						pre[ed.To.Index] = op
+						work = append(work, ed.To.Index)
+					}
 					// `if s > 0 { shift by s }` with s = nlz10(top word): on the edge where s == 0 the
 					// mantissa is normalised as it stands
 					if o == pend0 {
@@ -213,6 +399,7 @@ func runNorm(m *model.Model, s *ob.Set) {
 			}
 			for bi, b := range fn.Blocks {
 				if in[bi] != 0 && live[bi] {
+					curPre = pre[bi]
 					step(b, in[bi], true)
 				}
 			}
@@ -276,6 +463,7 @@ func runNorm(m *model.Model, s *ob.Set) {
 					for _, ins := range b.Instrs {
 						v = formStep(ins, v)
 					}
+					curPre = pre[bi]
 					st = step(b, st, false)
 					if st != clean && v != 1 {
 						bad = append(bad, fmt.Sprintf("%s: an error exit leaves a raw (not normalised, not rounded) mantissa in the receiver while its form may still be finite: a failed call must leave a zero or an infinity, not an invalid finite number", m.InstrPos(ret)))
@@ -299,7 +487,7 @@ func normExemptValue(m *model.Model, v ssa.Value, k int) bool {
 	case *ssa.Slice:
 		return m.RootsOf(x.X).SubsetOf(func(l string) bool { return l == fmt.Sprintf("P%d.mant", k) })
 	case *ssa.Call:
-		cal := x.Call.StaticCallee()
+		cal := model.Unthunk(x.Call.StaticCallee())
 		if cal != nil && m.FuncName(cal) == "dec.set" {
 			// z.mant.set(x.mant): the source is some Decimal's mantissa
 			for l := range m.RootsOf(x.Call.Args[1]) {
@@ -369,20 +557,43 @@ func (e *expEngine) isClamp(fn *ssa.Function) bool {
 				continue
 			}
 			bo, ok := ifi.Cond.(*ssa.BinOp)
-			if !ok || bo.X != ssa.Value(p) {
+			if !ok {
 				continue
 			}
-			if _, isc := bo.Y.(*ssa.Const); !isc {
+			op := bo.Op
+			switch {
+			case bo.X == ssa.Value(p):
+				if _, isc := bo.Y.(*ssa.Const); !isc {
+					continue
+				}
+			case bo.Y == ssa.Value(p):
+				// K <= p is p >= K
+				if _, isc := bo.X.(*ssa.Const); !isc {
+					continue
+				}
+				mo, okm := mirrorOpTok[op]
+				if !okm {
+					continue
+				}
+				op = mo
+			default:
 				continue
 			}
-			switch bo.Op {
+			switch op {
 			case token.GTR, token.GEQ:
+				// p > K fails: an upper bound; p >= K holds: a lower bound
 				if e.m.EdgeDominates(gb, 1, b) {
 					hi = true
+				}
+				if e.m.EdgeDominates(gb, 0, b) {
+					lo = true
 				}
 			case token.LSS, token.LEQ:
 				if e.m.EdgeDominates(gb, 1, b) {
 					lo = true
+				}
+				if e.m.EdgeDominates(gb, 0, b) {
+					hi = true
 				}
 			}
 		}
@@ -444,7 +655,7 @@ func (e *expEngine) smallTerm(v ssa.Value, depth int, seen map[ssa.Value]bool) (
 		if n := model.BuiltinName(&x.Call); n == "len" || n == "cap" {
 			return true, ""
 		}
-		cal := x.Call.StaticCallee()
+		cal := model.Unthunk(x.Call.StaticCallee())
 		if cal != nil && m.InDecimalPkg(cal) {
 			switch cal.Name() {
 			case "dnorm", "nlz10", "decDigits", "decDigits64", "digits", "trailingZeroDigits":
@@ -467,7 +678,7 @@ func (e *expEngine) smallTerm(v ssa.Value, depth int, seen map[ssa.Value]bool) (
 		// one result of an in-package helper: every value the helper returns in that position must
 		// be a small term, with the helper's parameters standing for the arguments of this call
 		if call, ok := x.Tuple.(*ssa.Call); ok {
-			if cal := call.Call.StaticCallee(); cal != nil && m.InDecimalPkg(cal) && len(cal.Blocks) > 0 && depth > 2 {
+			if cal := model.Unthunk(call.Call.StaticCallee()); cal != nil && m.InDecimalPkg(cal) && len(cal.Blocks) > 0 && depth > 2 {
 				if e.bind == nil {
 					e.bind = map[*ssa.Parameter]ssa.Value{}
 				}
@@ -578,7 +789,8 @@ func runExp(m *model.Model, s *ob.Set) {
 				if cal, c := model.Callee(in); cal == sear {
 					ai++
 					nsites++
-					ok, why := e.smallTerm(c.Args[1], 14, map[ssa.Value]bool{})
+					ei, _ := searArgs(sear)
+					ok, why := e.smallTerm(c.Args[ei], 14, map[ssa.Value]bool{})
 					cn := fmt.Sprintf("%s/setExpAndRound-arg#%d", name, ai)
 					s.Check(ok, R+"(iii)", cn, m.InstrPos(in), "a sum of terms that are small by construction", why)
 				}
@@ -635,6 +847,23 @@ func runExp(m *model.Model, s *ob.Set) {
 				nsites++
 				cn := fmt.Sprintf("%s/int32-conversion#%d", name, ci)
 				lo, hi := rangeGuarded(fn, conv.X, b, true, true)
+				if ph, isPhi := conv.X.(*ssa.Phi); isPhi && !(lo && hi) {
+					// joined from several ways: the ones that cannot be the value seen here (their
+					// branch contradicts the tests in front of this store) do not count, a constant
+					// within the limits needs no test
+					lo, hi = true, true
+					for ei, ev := range ph.Edges {
+						if m.PhiEdgeInfeasibleAt(ph, ei, b) {
+							continue
+						}
+						if kc, isC := ev.(*ssa.Const); isC && kc.Value != nil && kc.Value.Kind() == constant.Int &&
+							constant.Compare(kc.Value, token.GEQ, minE) && constant.Compare(kc.Value, token.LEQ, maxE) {
+							continue
+						}
+						l2, h2 := rangeGuarded(fn, ev, b, true, true)
+						lo, hi = lo && l2, hi && h2
+					}
+				}
 				if w, tab := tabledConv[name]; tab && !(lo && hi) {
 					s.Note(R+"(i)", cn, m.InstrPos(st), "tabled: "+w)
 					continue
@@ -699,6 +928,51 @@ func runExp(m *model.Model, s *ob.Set) {
 			}
 		}
 	}
+	// (v) a caller's exponent (a wide integer parameter of an exported function) is not narrowed to
+	// int32 before anything has compared it with the limits: the narrowing keeps the low 32 bits,
+	// and an exponent of 2^32 becomes 0 (a helper that takes the exponent as int32 invites this)
+	for _, fn := range m.Funcs {
+		if !m.InDecimalPkg(fn) || len(fn.Blocks) == 0 || fn.Synthetic != "" {
+			continue
+		}
+		live := m.Live(fn)
+		k := 0
+		for _, b := range fn.Blocks {
+			if !live[b.Index] {
+				continue
+			}
+			for _, in := range b.Instrs {
+				cv, ok := in.(*ssa.Convert)
+				if !ok || !isWideInt(cv.X.Type()) {
+					continue
+				}
+				bt, ok := cv.Type().Underlying().(*types.Basic)
+				if !ok || bt.Kind() != types.Int32 {
+					continue
+				}
+				p, isParam := cv.X.(*ssa.Parameter)
+				if !isParam || !strings.Contains(strings.ToLower(p.Name()), "exp") {
+					continue
+				}
+				// handed on as an argument (not merely stored behind the range test of EXP(i))
+				toCall := false
+				if cv.Referrers() != nil {
+					for _, u := range *cv.Referrers() {
+						if _, ok := u.(ssa.CallInstruction); ok {
+							toCall = true
+						}
+					}
+				}
+				if !toCall {
+					continue
+				}
+				k++
+				nsites++
+				lo, hi := rangeGuarded(fn, cv.X, b, true, true)
+				s.Check(lo && hi, R+"(v)", fmt.Sprintf("%s/param-narrowed#%d", m.FuncName(fn), k), m.InstrPos(cv), "compared with MinExp and MaxExp first", fmt.Sprintf("the caller's exponent %s is narrowed to int32 and handed on without having been compared with MinExp and MaxExp: 2^32 becomes 0, the saturation to ±0/±Inf turns into a wrap", p.Name()))
+			}
+		}
+	}
 	// (iv) the clamp applied to caller-supplied exponent offsets (SetMantExp, SetBitsExp,
 	// NewDecimal): the offset is added to summands of magnitude below 2^33 (an int32 exponent,
 	// a mantissa length in digits, a normalisation shift) before the [MinExp, MaxExp] test. The
@@ -730,6 +1004,21 @@ func runExp(m *model.Model, s *ob.Set) {
 				default:
 					continue
 				}
+				// a bound of the clamp: one of its edges leads to the return of the argument
+				// itself (a later `exp < 0` that only picks which limit to return is not one)
+				bounds := false
+				if ifi, isIf := b.Instrs[len(b.Instrs)-1].(*ssa.If); isIf && ifi.Cond == ssa.Value(bo) {
+					for _, rb := range le.Blocks {
+						if r, isR := rb.Instrs[len(rb.Instrs)-1].(*ssa.Return); isR && len(r.Results) == 1 && r.Results[0] == ssa.Value(le.Params[0]) {
+							if m.EdgeDominates(b, 0, rb) || m.EdgeDominates(b, 1, rb) {
+								bounds = true
+							}
+						}
+					}
+				}
+				if !bounds {
+					continue
+				}
 				n++
 				abs := k.Value
 				if constant.Sign(abs) < 0 {
@@ -737,6 +1026,21 @@ func runExp(m *model.Model, s *ob.Set) {
 				}
 				if constant.Compare(abs, token.LSS, lo) || constant.Compare(abs, token.GTR, hi) {
 					bad = fmt.Sprintf("%s: the caller's exponent offset is clamped at %s, outside [2^34, 2^62]", m.InstrPos(bo), k.Value.ExactString())
+				}
+			}
+		}
+		// the constants it returns in place of the argument
+		for _, b := range le.Blocks {
+			if r, isR := b.Instrs[len(b.Instrs)-1].(*ssa.Return); isR && len(r.Results) == 1 {
+				if k, isC := r.Results[0].(*ssa.Const); isC && k.Value != nil && k.Value.Kind() == constant.Int {
+					n++
+					abs := k.Value
+					if constant.Sign(abs) < 0 {
+						abs = constant.UnaryOp(token.SUB, abs, 0)
+					}
+					if constant.Compare(abs, token.LSS, lo) || constant.Compare(abs, token.GTR, hi) {
+						bad = fmt.Sprintf("%s: the caller's exponent offset is replaced by %s, outside [2^34, 2^62]", m.InstrPos(r), k.Value.ExactString())
+					}
 				}
 			}
 		}
@@ -1041,7 +1345,7 @@ func runNormArg(m *model.Model, s *ob.Set) {
 		case *ssa.Parameter:
 			return true, "parameter (caller's obligation)"
 		case *ssa.Call:
-			cal := x.Call.StaticCallee()
+			cal := model.Unthunk(x.Call.StaticCallee())
 			if cal != nil && m.InDecimalPkg(cal) && m.IsWordSlice(x.Type()) {
 				return true, "result of " + m.FuncName(cal)
 			}
@@ -1247,7 +1551,7 @@ func runInit(m *model.Model, s *ob.Set) {
 				// a buffer rooted at a parameter-derived value (e.g. the result of z.make) that is
 				// produced by a whole-slice routine counts; otherwise report
 				if call, ok := st.base.(*ssa.Call); ok {
-					if cal := call.Call.StaticCallee(); cal != nil && m.InDecimalPkg(cal) && m.FuncName(cal) != "dec.make" && m.FuncName(cal) != "getDec" {
+					if cal := model.Unthunk(call.Call.StaticCallee()); cal != nil && m.InDecimalPkg(cal) && m.FuncName(cal) != "dec.make" && m.FuncName(cal) != "getDec" {
 						continue // result of a dec-layer computation (e.g. t.mul(...)): fully defined
 					}
 				}
@@ -1265,7 +1569,7 @@ func runInit(m *model.Model, s *ob.Set) {
 							okPhi = true
 						}
 						if c2, isC := st2.base.(*ssa.Call); isC {
-							if cal := c2.Call.StaticCallee(); cal != nil && m.FuncName(cal) != "dec.make" {
+							if cal := model.Unthunk(c2.Call.StaticCallee()); cal != nil && m.FuncName(cal) != "dec.make" {
 								okPhi = true
 							}
 						}
@@ -1463,8 +1767,59 @@ func init() {
 		Doc: "every dec-layer function that returns a dec returns a normalised value: the result of norm(), of another such function, an empty slice, or its own (normalised) parameter"})
 }
 
+// runLowCutBigInt: a setter that takes a *big.Int (SetInt) converts the integer it was given. A
+// division or right shift of that integer in front of the conversion (to convert fewer words when
+// the precision is small) drops the low digits before anything has looked at them: they never
+// reach the sticky bit, ties and exact values are misjudged.
+func runLowCutBigInt(m *model.Model, s *ob.Set) {
+	const R = "LOWCUT"
+	for _, fn := range m.Funcs {
+		if !m.InDecimalPkg(fn) || len(fn.Blocks) == 0 || fn.Synthetic != "" || len(fn.Params) < 2 || !m.IsDecPtr(fn.Params[0].Type()) {
+			continue
+		}
+		hasInt := false
+		for _, p := range fn.Params[1:] {
+			if bigNamedType(p.Type()) == "Int" {
+				hasInt = true
+			}
+		}
+		if !hasInt || len(m.StoreSets(fn, 0)) == 0 {
+			continue // (a conversion the other way, Decimal to Int, truncates by contract)
+		}
+		live := m.Live(fn)
+		n, bad := 0, ""
+		for _, b := range fn.Blocks {
+			if !live[b.Index] {
+				continue
+			}
+			for _, in := range b.Instrs {
+				c, ok := in.(*ssa.Call)
+				if !ok {
+					continue
+				}
+				cal := model.Unthunk(c.Call.StaticCallee())
+				if cal == nil || cal.Pkg == nil || cal.Pkg.Pkg.Path() != "math/big" || cal.Signature.Recv() == nil {
+					continue
+				}
+				if bigNamedType(cal.Signature.Recv().Type()) != "Int" {
+					continue
+				}
+				n++
+				switch cal.Name() {
+				case "Quo", "Div", "Rsh", "QuoRem", "DivMod", "Rem", "Mod":
+					bad = fmt.Sprintf("%s: the integer is cut down with (*big.Int).%s before it is converted: the digits that fall off are not seen by the rounding (no sticky bit for them)", m.InstrPos(in), cal.Name())
+				}
+			}
+		}
+		if n > 0 {
+			s.Check(bad == "", R, m.FuncName(fn)+"/bigint-prescale", m.Pos(fn.Pos()), fmt.Sprintf("%d math/big call(s) on the integer, none that drops digits", n), bad)
+		}
+	}
+}
+
 func runLowCut(m *model.Model, s *ob.Set) {
 	const R = "LOWCUT"
+	runLowCutBigInt(m, s)
 	tabled := map[string]string{
 		"(*Decimal).round":     "round computes the rounding digit and the sticky bit of everything below it before cutting",
 		"(*Decimal).GobEncode": "encodes at most ceil(prec/_DW) top words; lower words are zero for a canonical Decimal (digits <= prec)",
@@ -1597,7 +1952,7 @@ func runLowCut(m *model.Model, s *ob.Set) {
 					if !ok {
 						continue
 					}
-					cal := call.Call.StaticCallee()
+					cal := model.Unthunk(call.Call.StaticCallee())
 					if cal == nil || m.FuncName(cal) != "dec.sticky" {
 						continue
 					}
@@ -1631,7 +1986,7 @@ func runLowCut(m *model.Model, s *ob.Set) {
 					// and reach the rounding
 					for _, b2 := range fn.Blocks {
 						for _, in2 := range b2.Instrs {
-							if cal2, c2 := model.Callee(in2); cal2 == sear && flowsInto(m, call, c2.Args[2], 8, map[ssa.Value]bool{}) {
+							if cal2, c2 := model.Callee(in2); cal2 == sear && flowsInto(m, call, c2.Args[func() int { _, si := searArgs(sear); return si }()], 8, map[ssa.Value]bool{}) {
 								okSticky = true
 							} else if cal2 == round && flowsInto(m, call, c2.Args[1], 8, map[ssa.Value]bool{}) {
 								okSticky = true
@@ -1678,6 +2033,7 @@ func runDecNorm(m *model.Model, s *ob.Set) {
 	// φ cycles (a buffer threaded through a loop) are treated co-inductively: a φ already on
 	// the stack contributes nothing new, every other edge must be a normalised value.
 	onStack := map[*ssa.Phi]bool{}
+	var curRet ssa.Instruction // the return whose operand is being judged
 	var okVal func(v ssa.Value, d int) (bool, string)
 	okVal = func(v ssa.Value, d int) (bool, string) {
 		if d == 0 {
@@ -1687,6 +2043,39 @@ func runDecNorm(m *model.Model, s *ob.Set) {
 		case *ssa.Const:
 			return true, ""
 		case *ssa.Parameter:
+			// normalised as the caller gave it — unless this function wrote its words on the way here
+			for i, p := range x.Parent().Params {
+				lab := fmt.Sprintf("P%d", i)
+				if p != x || !m.ElemWrites(x.Parent())[lab] || curRet == nil {
+					continue
+				}
+				for _, wb := range x.Parent().Blocks {
+					for _, in := range wb.Instrs {
+						wrote := false
+						switch w := in.(type) {
+						case *ssa.Store:
+							if ia, ok := w.Addr.(*ssa.IndexAddr); ok && m.IsWordSlice(ia.X.Type()) && m.RootsOf(ia.X)[lab] {
+								wrote = true
+							}
+						case ssa.CallInstruction:
+							c := w.Common()
+							if cal := model.Unthunk(c.StaticCallee()); cal != nil {
+								for l2 := range m.ElemWrites(cal) {
+									var k int
+									if _, err := fmt.Sscanf(l2, "P%d", &k); err == nil && l2 == fmt.Sprintf("P%d", k) && k < len(c.Args) && m.IsWordSlice(c.Args[k].Type()) && m.RootsOf(c.Args[k])[lab] {
+										wrote = true
+									}
+								}
+							} else if model.BuiltinName(c) == "copy" && m.RootsOf(c.Args[0])[lab] {
+								wrote = true
+							}
+						}
+						if wrote && m.Reaches(in, curRet) {
+							return false, "the buffer parameter " + x.Name() + ", whose words were written on the way (" + m.InstrPos(in) + "), returned without norm()"
+						}
+					}
+				}
+			}
 			return true, ""
 		case *ssa.Slice:
 			if x.High != nil {
@@ -1696,7 +2085,7 @@ func runDecNorm(m *model.Model, s *ob.Set) {
 			}
 			return false, "a slice expression (only v[:0] is trivially normalised)"
 		case *ssa.Call:
-			cal := x.Call.StaticCallee()
+			cal := model.Unthunk(x.Call.StaticCallee())
 			if cal == nil {
 				return false, "dynamic call"
 			}
@@ -1708,7 +2097,7 @@ func runDecNorm(m *model.Model, s *ob.Set) {
 			}
 			return false, "result of " + m.FuncName(cal)
 		case *ssa.Extract:
-			if call, ok := x.Tuple.(*ssa.Call); ok && isDecFn(call.Call.StaticCallee()) {
+			if call, ok := x.Tuple.(*ssa.Call); ok && isDecFn(model.Unthunk(call.Call.StaticCallee())) {
 				return true, ""
 			}
 			return false, "extracted value"
@@ -1780,6 +2169,7 @@ func runDecNorm(m *model.Model, s *ob.Set) {
 					continue
 				}
 				nret++
+				curRet = ret
 				if ok, why := okVal(r, 12); !ok {
 					bad = append(bad, fmt.Sprintf("%s: result %d is %s", m.InstrPos(ret), i, why))
 				}
@@ -1800,7 +2190,7 @@ func isNlzOfMant(m *model.Model, v ssa.Value, k int) bool {
 	if !ok {
 		return false
 	}
-	cal := c.Call.StaticCallee()
+	cal := model.Unthunk(c.Call.StaticCallee())
 	if cal == nil || cal.Name() != "nlz10" || len(c.Call.Args) != 1 {
 		return false
 	}
@@ -1813,4 +2203,43 @@ func isNlzOfMant(m *model.Model, v ssa.Value, k int) bool {
 		return false
 	}
 	return m.RootsOf(ia.X)[fmt.Sprintf("P%d.mant", k)]
+}
+
+func isErrorType(t types.Type) bool {
+	return types.Identical(t, types.Universe.Lookup("error").Type())
+}
+
+// emptyOnEdge: successor si of block b is taken only when len(v) == 0 for a slice v accepted by is.
+func emptyOnEdge(b *ssa.BasicBlock, si int, is func(ssa.Value) bool) bool {
+	if len(b.Instrs) == 0 {
+		return false
+	}
+	ifi, ok := b.Instrs[len(b.Instrs)-1].(*ssa.If)
+	if !ok {
+		return false
+	}
+	bo, ok := ifi.Cond.(*ssa.BinOp)
+	if !ok {
+		return false
+	}
+	x, y, op := bo.X, bo.Y, bo.Op
+	if _, isC := x.(*ssa.Const); isC {
+		x, y, op = y, x, mirrorOpTok[op]
+	}
+	k, ok := model.ConstInt(y)
+	if !ok {
+		return false
+	}
+	c, ok := x.(*ssa.Call)
+	if !ok || model.BuiltinName(&c.Call) != "len" || !is(c.Call.Args[0]) {
+		return false
+	}
+	if si == 1 {
+		op = negOp[op]
+	}
+	switch {
+	case op == token.EQL && k == 0, op == token.LEQ && k == 0, op == token.LSS && k == 1:
+		return true
+	}
+	return false
 }
